@@ -62,7 +62,7 @@ class SyncGraphNodeExecutor:
             # Values bound on the inner graph are resolved inside it: they are not
             # broadcast inputs and bypass clone
             bound = node.graph.inputs.bound
-            inner_inputs = {k: v for k, v in inner_inputs.items() if not (k in bound and v is bound[k])}
+            inner_inputs = {k: v for k, v in inner_inputs.items() if k in original_params or not (k in bound and v is bound[k])}
             results = self.runner.map(
                 node.graph,
                 inner_inputs,
